@@ -431,13 +431,27 @@ def pair_cases(rng, n_cases=None):
             done += 1
 
 
+POOL = None
+
+
+def pmap(fn, items):
+    """impl runs are independent: spread them over the worker pool in the thorough tier"""
+    if POOL is None or len(items) < 400:
+        return [fn(x) for x in items]
+    return POOL.map(fn, items, chunksize=max(1, min(500, len(items) // 32)))
+
+
+def _impl_model(dims):
+    return run_model_ctor(dims)[0]
+
+
 def process_model(ck, cases, state):
     lines = [desc_line(c["dims"]) for c in cases]
     answers = ck.driver.run(lines) if lines else []
-    for case, ans in zip(cases, answers):
+    impls = pmap(_impl_model, [c["dims"] for c in cases])
+    for case, ans, impl in zip(cases, answers, impls):
         dims = case["dims"]
         model = parse_ans(ans)
-        impl, m = run_model_ctor(dims)
         wf = wf_model(dims)
         expect_gen(case, wf)
         classes = mal_class(dims)
@@ -896,16 +910,22 @@ def fit_pair_cases(rng, count):
 def process_fit(ck, cases, state):
     lines = [fit_line(c) for c in cases]
     answers = ck.driver.run(lines) if lines else []
+
+    def fkey(case):
+        return json_key({k: case[k] for k in ("dims", "slicers", "fit_descs", "data_dim", "n_rows", "data_seed")})
+
+    todo = {}
+    for case in cases:
+        k = fkey(case)
+        if k not in state["fit_cache"] and k not in todo:
+            todo[k] = case
+    for k, impl in zip(todo, pmap(run_fit, list(todo.values()))):
+        state["fit_cache"][k] = impl
     for case, ans in zip(cases, answers):
         model = parse_ans(ans)
         wf = wf_fit(case)
         expect_gen(case, wf)
-        key = json_key({k: case[k] for k in ("dims", "slicers", "fit_descs", "data_dim", "n_rows", "data_seed")})
-        if key in state["fit_cache"]:
-            impl = state["fit_cache"][key]
-        else:
-            impl = run_fit(case)
-            state["fit_cache"][key] = impl
+        impl = state["fit_cache"][fkey(case)]
         ck.case(case, nontrivial=True, sample=(state["n"] % 397 == 0))
         state["n"] += 1
         ck.count("entry=fit")
@@ -1426,13 +1446,15 @@ def process_contours(ck, cases, state):
 
 
 def corpus_cases():
-    """witnesses of DESIGN section 4 #8: conditional_on = own / later / non-existent dimension"""
-    W, L = "Weibull", "LogNormal"
-    for c in (["int", 2], ["int", 1], ["int", 5], ["int", -1], ["str", "a"]):
-        dims = [base_dim(W), dict(base_dim(L, 0), cond=c), base_dim(W)]
-        yield {"entry": "model", "gen": "corpus:#8", "pos": 1, "dims": dims}
-    yield {"entry": "slicer", "gen": "corpus:single:unknown_reference", "n_rows": 40, "data_seed": 0,
-           "slicer": {"kind": "ppi", "n_points": 10, "min_n_points": 1, "ref": ["str", "center"]}}
+    """corpus/C18/*.json: witnesses of DESIGN section 4 #8 (conditional_on = own / later / non-existent
+    dimension) and of the non-callable PointsPerIntervalSlicer reference"""
+    import glob
+    import json
+    import os
+
+    d = os.path.join(os.path.dirname(os.path.dirname(os.path.abspath(__file__))), "corpus", "C18")
+    for fn in sorted(glob.glob(os.path.join(d, "*.json"))):
+        yield json.load(open(fn))["case"]
 
 
 PROCESS = {"model": process_model, "fit": process_fit, "slicer": process_slicer, "grid": process_grid,
@@ -1473,6 +1495,32 @@ def main(ck):
         "joint cdf of finite points is only evaluated for n_dim = 1 (and 2 in the thorough tier): n-fold quadrature",
     ]
     state = new_state()
+    global POOL
+    if thorough:
+        import multiprocessing
+
+        POOL = multiprocessing.get_context("fork").Pool(8)
+    try:
+        _explore(ck, rng, thorough, state)
+    finally:
+        if POOL is not None:
+            POOL.close()
+            POOL = None
+    ck.extra["exhaustive"] = False
+    ck.extra["explanation"] = (
+        "enumerated completely: single malformations of model descriptions (class x position x hierarchy with n_dim <= 4 "
+        "x family), HDC grid / slicer / point / contour classes; pairs of model-description malformations: "
+        + ("enumerated completely" if thorough else "random sample")
+        + "; fit specifications: every class x position x family on " + ("all" if thorough else "a subset of the")
+        + " hierarchies, pairs sampled"
+    )
+    ck.partial = {
+        "numerical fits, densities and contours behind the checks": "not modelled; the model ends where validation ends "
+        "(well-formed neighbours are only observed to be accepted)",
+    }
+
+
+def _explore(ck, rng, thorough, state):
     run_batch(ck, list(corpus_cases()), state)
     run_batch(ck, list(model_cases(rng, thorough)), state)
     if thorough:
@@ -1484,20 +1532,14 @@ def main(ck):
                 batch = []
         run_batch(ck, batch, state)
     else:
-        run_batch(ck, list(pair_cases(rng, 1500)), state)
+        run_batch(ck, list(pair_cases(rng, 5000)), state)
     run_batch(ck, list(slicer_cases(rng, thorough)), state)
     run_batch(ck, list(grid_cases(rng, thorough)), state)
     run_batch(ck, list(point_cases(rng, thorough)), state)
     run_batch(ck, list(contour_cases(rng, thorough)), state)
     fc = list(fit_cases(rng, thorough))
     run_batch(ck, fc, state)
-    run_batch(ck, list(fit_pair_cases(rng, 4000 if thorough else 300)), state)
-    ck.extra["exhaustive"] = "single malformations: class x position x hierarchy (n_dim<=4) x family; pairs: " + (
-        "exhaustive for model descriptions" if thorough else "sampled")
-    ck.partial = {
-        "numerical fits, densities and contours behind the checks": "not modelled; the model ends where validation ends "
-        "(well-formed neighbours are only observed to be accepted)",
-    }
+    run_batch(ck, list(fit_pair_cases(rng, 6000 if thorough else 600)), state)
 
 
 def replay(ck, payload):
